@@ -43,15 +43,37 @@ Theorem C08_abs_frame :
 Proof. exact abs_frame_wf. Qed.
 Print Assumptions C08_abs_frame.
 
-(* Replay.  After any history of operations started in a well-formed heap h:
+(* Replay.  After any history of operations (all seven kinds, HTMLDocument.render and
+   _hoist_head_content included) started in a well-formed heap h:
    (1) the heap is h plus new objects;
    (2) every value of h denotes what it denoted before, for every fuel;
-   (3) the outcome of each operation (other than HTMLDocument.render, see C08_replay_partial
-       below) -- new objects observed by the trees they denote -- is the pure-layer function
-       pure_op of the tree its receiver denoted in the ORIGINAL heap, wherever the operation
-       stands in the history; in particular
-   (4) it is the outcome the same operation has when run first, on h itself. *)
+   (3) the outcome of each operation -- new objects observed by the trees they denote -- is
+       the pure-layer function pure_op of the tree its receiver denoted in the ORIGINAL
+       heap, wherever the operation stands in the history; in particular
+   (4) it is the outcome the same operation has when run first, on h itself.
+   Hypothesis on what C08 does not model: the tags a dependency contributes to head hold no
+   tagifiable object (as_html_tags builds meta / link / script tags and HTML text). *)
 Theorem C08_replay :
+  forall upd mk resolve dep_script dep_tags fuel os h h' rs,
+    (forall k p, forallb no_custom (dep_tags k p) = true) ->
+    wf h ->
+    run_ops upd mk resolve dep_script dep_tags fuel h os = Some (h', rs) ->
+    (exists ext, h' = h ++ ext)
+    /\ (forall f v, val_ok (length h) v -> abs_val f h' v = abs_val f h v)
+    /\ Forall2 (fun o r =>
+                  forall f rt, abs_root f h (op_target o) = Some rt ->
+                    exists out,
+                      pure_op upd mk resolve dep_script dep_tags o rt = Some out
+                      /\ (exists f', observe f' h' r = Some out)
+                      /\ forall h1 r1,
+                          run_op upd mk resolve dep_script dep_tags fuel h o = Some (h1, r1) ->
+                          exists f1, observe f1 h1 r1 = Some out) os rs.
+Proof. exact c08_replay_all. Qed.
+Print Assumptions C08_replay.
+
+(* The same without any hypothesis on the dependency tags, for the operations that do not
+   build a document, and with the observation at the fuel of the hypothesis. *)
+Theorem C08_replay_basic :
   forall upd mk resolve dep_script dep_tags fuel os h h' rs,
     wf h ->
     run_ops upd mk resolve dep_script dep_tags fuel h os = Some (h', rs) ->
@@ -65,7 +87,32 @@ Theorem C08_replay :
                         run_op upd mk resolve dep_script dep_tags fuel h o = Some (h1, r1) ->
                         observe f h1 r1 = observe f h' r) os rs.
 Proof. exact c08_replay. Qed.
-Print Assumptions C08_replay.
+Print Assumptions C08_replay_basic.
+
+(* The document construction refines its pure reading: _hoist_head_content called on a tag
+   denoting t returns a NEW tag denoting hoist_pure t (head found or created, meta charset
+   first, the dependency script and the dependency tags last), and _gen_html_tag_tree on
+   content denoting ts returns a tag denoting gen_tree_pure ts (the three construction
+   cases; the document attributes go into the copy). *)
+Theorem C08_doc_refines :
+  forall upd mk resolve dep_script dep_tags,
+    (forall k p, forallb no_custom (dep_tags k p) = true) ->
+    (forall fuel k h x h' res f t,
+        hoist resolve dep_script dep_tags fuel k h x = Some (h', res) ->
+        abs f h x = Some t ->
+        exists t' f', hoist_pure resolve dep_script dep_tags k t = Some t'
+                      /\ abs f' h' res = Some t')
+    /\ (forall fuel k h content items h' html f ts,
+           gen_tree upd mk resolve dep_script dep_tags fuel k h content = Some (h', html) ->
+           lookup h content = Some (OList items) -> abs_list f h items = Some ts ->
+           exists t f', gen_tree_pure upd mk resolve dep_script dep_tags k ts = Some t
+                        /\ abs f' h' html = Some t).
+Proof.
+  intros upd mk resolve dep_script dep_tags Hdt. split.
+  - exact (hoist_refines resolve dep_script dep_tags Hdt).
+  - exact (gen_tree_refines upd mk resolve dep_script dep_tags Hdt).
+Qed.
+Print Assumptions C08_doc_refines.
 
 (* ------------------------------------------------------------------------------------ *)
 (* tagify: fresh, independent, the pure substitution                                    *)
@@ -234,6 +281,9 @@ Example C08_wf_nonvacuous : wf ex_heap.
 Proof.
   unfold wf, ex_heap. repeat constructor; cbn; try lia; eexists; reflexivity.
 Qed.
+
+Example C08_replay_nonvacuous : forall k p, forallb no_custom (ex_tags k p) = true.
+Proof. intros k p. reflexivity. Qed.
 
 (* the examples are closed computations (checked by the VM), then read off *)
 Definition ex_run :=
